@@ -131,7 +131,15 @@ def part_a(rec, li, n, seed, only=None):
                             rec.violation("single-axis", "raise:" + exc_sig(e), case, "array", f"{type(e).__name__}: {e}"[:200])
                             continue
                         exp = S.ref_stencil(base, fr, to, n, op, rule, fv)
-                        compare(rec, "single-axis", case, r, exp, ("b", S.dimname("X", to)))
+                        if compare(rec, "single-axis", case, r, exp, ("b", S.dimname("X", to))) and supply == "call" and not omit:
+                            # the same in single precision (small integers and halves are exact there too)
+                            try:
+                                r32 = getattr(g, op)(da.astype(np.float32), "X", **kw)
+                                rec.calls += 1
+                                if r32.dims != r.dims or not np.array_equal(np.asarray(r32.values, dtype=float), exp):
+                                    rec.violation("single-axis", "values:float32", dict(case, dtype="float32"), exp, r32.values)
+                            except Exception as e:
+                                rec.violation("single-axis", "raise:float32:" + exc_sig(e), dict(case, dtype="float32"), "array", f"{type(e).__name__}: {e}"[:200])
 
 
 # ---------------------------------------------------------------- part (b)
